@@ -18,10 +18,28 @@
       - "whatever happens to their parents": the completion of any other job, from ANY state, leaves a job of an open
         update untouched (C41_parent_completion_does_not_release; the defect repaired by migration 122).
 
-    NOT proved here: the counters / tallies clauses are the counter invariants of C01 and C06; the non-interference
-    clause ("exactly as if it had not been started") is checked by the oracle's update-erasure rerun
-    (oracles.c41_noninterference) on the implementation only. *)
-From HailV Require Import Common.Prelude BatchDB.Model BatchDB.Legal BatchDB.DepsDef BatchDB.Deps BatchDB.DepsCorollaries BatchDB.Pick.
+      - "never counted in scheduling counters or batch/job-group tallies, never change completeness" (BatchDB/Inert.v, from the
+        invariants of C01 and C06): every counter column, every tally and every completeness flag is a recount over
+        [cjobs] = the jobs of COMMITTED updates (C41_user_counters_committed_only, C41_group_cancellable_committed_only,
+        C41_group_cancellable_open_update, C41_tallies_committed_only, C41_batch_tally_committed_only,
+        C41_group_without_committed_jobs); every attempt row belongs to a committed job (C41_attempts_of_committed_jobs);
+      - history form of inertness: the row of a job of an update that is still open at the end of a good history is exactly
+        the row that was inserted (C41_uncommitted_row_frozen, C41_uncommitted_row_constant);
+      - the analogue for the GROUPS of an open update is false without a sequential client (C41_open_update_group_running_refuted);
+      - NON-INTERFERENCE, PARTIAL (BatchDB/NonInterf*.v): [erase] = the erasure of oracles.erase_last_uncommitted_update,
+        [proj] = the state without the rows of the erased update.  For a good history [pre ++ open :: post] in which the
+        request [open] creates update U of batch B while every other update of B is committed, U stays open and last, and
+        [post] consists of SUPPORTED transactions: run (pre ++ erase post) = proj (run (pre ++ open :: post))
+        (C41_noninterference_partial; state form C41_noninterference_phase2_partial; C41_noninterference_nonvacuous).
+        Supported = every driver / worker / instance / billing transaction, create_update, create_groups / create_jobs / commit
+        of batch B, staging clean-up.  MISSING transaction cases (the statement is otherwise the full one): create_batch,
+        create_groups / create_jobs / commit of OTHER batches while U is open, cancel_job_group, delete_batch, cancellable clean-up.
+        Extra hypotheses: the client opens U when all other updates of B are committed (without it another open update may
+        use U's groups: C41_open_update_group_running_refuted); no row carries U's keys before U is opened (proj (run pre) = run pre). *)
+From HailV Require Import Common.Prelude BatchDB.Model BatchDB.CMap BatchDB.Legal BatchDB.DepsDef BatchDB.Deps BatchDB.DepsCorollaries BatchDB.Pick
+  BatchDB.Counters BatchDB.Tally BatchDB.TallyInv BatchDB.Inert
+  BatchDB.NonInterfDef BatchDB.NonInterfInv BatchDB.NonInterfSim BatchDB.NonInterfClient BatchDB.NonInterf.
+From HailV Require BatchDB.Cancel.
 Open Scope Z_scope.
 
 (** A job of an update that is not committed was never handed to the driver: it has no attempt and is Pending — or
@@ -94,3 +112,149 @@ Theorem C41_hypotheses_satisfiable :
   good_history (firstn 7 demo_history) /\ pickable (run (firstn 7 demo_history)) 1 1 = true.
 Proof. exact pick_committed_nonvacuous. Qed.
 Print Assumptions C41_hypotheses_satisfiable.
+
+(* ------------------------------------------------------------------ never counted (C01 / C06 in C41 vocabulary) *)
+
+(** user_inst_coll_resources: all eight columns are recounts over [cjobs] = the jobs of committed updates only; rows of
+    open updates can be added or removed without changing them. *)
+Theorem C41_user_counters_committed_only : forall ops,
+  good_history ops -> let s := run ops in forall usr ic,
+    let v i := cval (key_eqb [usr; ic]) i (user_res s) in
+    let sel st c x := user_job s usr ic x && (in_state x st && c x) in
+    let live x := negb (eff_cancelled s x) in
+    v 0%nat = Counters.count (sel Ready live) (cjobs s) /\ v 1%nat = cores (sel Ready live) (cjobs s) /\
+    v 2%nat = Counters.count (sel Running live) (cjobs s) /\ v 3%nat = cores (sel Running live) (cjobs s) /\
+    v 4%nat = Counters.count (sel Creating live) (cjobs s) /\
+    v 5%nat = Counters.count (sel Ready (eff_cancelled s)) (cjobs s) /\
+    v 6%nat = Counters.count (sel Running (eff_cancelled s)) (cjobs s) /\
+    v 7%nat = Counters.count (sel Creating (eff_cancelled s)) (cjobs s).
+Proof. exact user_counters_committed_only. Qed.
+Print Assumptions C41_user_counters_committed_only.
+
+(** job_group_inst_coll_cancellable_resources, rows of a committed update in a group that is not cancelled. *)
+Theorem C41_group_cancellable_committed_only : forall ops,
+  good_history ops -> let s := run ops in forall b u g ic,
+    committed s b u = true -> group_cancelled s b g = false ->
+    let v i := cval (key_eqb [b; u; g; ic]) i (cancellable s) in
+    let sel st x := subtree_job s b u g ic x && (in_state x st && cancellable_job s x) in
+    v 0%nat = Counters.count (sel Ready) (cjobs s) /\ v 1%nat = cores (sel Ready) (cjobs s) /\
+    v 2%nat = Counters.count (sel Creating) (cjobs s) /\
+    v 3%nat = Counters.count (sel Running) (cjobs s) /\ v 4%nat = cores (sel Running) (cjobs s).
+Proof. exact group_cancellable_committed_only. Qed.
+Print Assumptions C41_group_cancellable_committed_only.
+
+(** ... and the rows of an OPEN update hold no creating / running job, and ready jobs only for update 1 (what _create_jobs wrote). *)
+Theorem C41_group_cancellable_open_update : forall ops,
+  good_history ops -> let s := run ops in forall b u g ic,
+    committed s b u = false -> group_cancelled s b g = false ->
+    let v i := cval (key_eqb [b; u; g; ic]) i (cancellable s) in
+    v 2%nat = 0 /\ v 3%nat = 0 /\ v 4%nat = 0 /\ (u <> 1 -> v 0%nat = 0 /\ v 1%nat = 0).
+Proof. exact group_cancellable_uncommitted_history. Qed.
+Print Assumptions C41_group_cancellable_open_update.
+
+(** The five tallies of every job group and whether it is complete depend on the committed jobs only. *)
+Theorem C41_tallies_committed_only : forall ops,
+  good_history ops -> let s := run ops in
+  forall gr, In gr (groups s) ->
+    let sub := csub s (g_batch gr) (g_id gr) in
+    g_njobs gr = Z.of_nat (length sub) /\ g_ncompleted gr = TallyInv.count terminal sub /\ g_nsucc gr = TallyInv.count q_succ sub /\
+    g_nfailed gr = TallyInv.count q_fail sub /\ g_ncancelled gr = TallyInv.count q_canc sub /\
+    (g_running gr = false <-> forall x, In x sub -> terminal (j_state x) = true).
+Proof. exact tallies_committed_only. Qed.
+Print Assumptions C41_tallies_committed_only.
+
+Theorem C41_batch_tally_committed_only : forall ops,
+  good_history ops -> let s := run ops in
+  forall bt, In bt (batches s) ->
+    b_njobs bt = Z.of_nat (length (cbatch s (b_id bt))) /\
+    (b_running bt = false <-> forall x, In x (cbatch s (b_id bt)) -> terminal (j_state x) = true).
+Proof. exact batch_tally_committed_only. Qed.
+Print Assumptions C41_batch_tally_committed_only.
+
+(** A job group none of whose subtree jobs is committed has all tallies 0 and is complete. *)
+Theorem C41_group_without_committed_jobs : forall ops,
+  good_history ops -> let s := run ops in
+  forall gr, In gr (groups s) ->
+    (forall x, In x (jobs s) -> j_batch x = g_batch gr -> In (g_id gr) (anc_ids s (g_batch gr) (j_group x)) -> jcommitted s x = false) ->
+    g_njobs gr = 0 /\ g_ncompleted gr = 0 /\ g_nsucc gr = 0 /\ g_nfailed gr = 0 /\ g_ncancelled gr = 0 /\ g_running gr = false.
+Proof. exact group_without_committed_jobs. Qed.
+Print Assumptions C41_group_without_committed_jobs.
+
+(** Without a sequential client the groups of an open update CAN become running: update 1 puts a job into a group of
+    the open update 2 and is committed. *)
+Theorem C41_open_update_group_running_refuted :
+  good_history open_group_history /\
+  let s := run open_group_history in
+  committed s 1 2 = false /\ find_group s 1 1 = Some (mkGroup 1 1 true 1 0 0 0 0 (Some 2)).
+Proof. exact open_update_group_running_refuted. Qed.
+Print Assumptions C41_open_update_group_running_refuted.
+
+(** Never scheduled, at the level of the attempts table: every attempt row belongs to a job of a committed update. *)
+Theorem C41_attempts_of_committed_jobs : forall ops, good_history ops ->
+  forall a, In a (attempts (run ops)) -> job_committed (run ops) (a_batch a) (a_job a) = true.
+Proof. exact AttInv_reachable. Qed.
+Print Assumptions C41_attempts_of_committed_jobs.
+
+(* ------------------------------------------------------------------ inertness over histories *)
+
+Theorem C41_uncommitted_row_frozen : forall ops ext b j x,
+  good_history (ops ++ ext) -> find_job (run ops) b j = Some x ->
+  committed (run (ops ++ ext)) b (j_update x) = false ->
+  find_job (run (ops ++ ext)) b j = Some x /\ j_attempt x = None /\ (j_state x = Pending \/ j_state x = Ready).
+Proof. exact uncommitted_row_frozen. Qed.
+Print Assumptions C41_uncommitted_row_frozen.
+
+Theorem C41_uncommitted_row_constant : forall ops ext1 ext2 b j x y,
+  good_history (ops ++ ext1 ++ ext2) -> find_job (run ops) b j = Some x ->
+  find_job (run (ops ++ ext1)) b j = Some y ->
+  committed (run (ops ++ ext1 ++ ext2)) b (j_update x) = false -> y = x.
+Proof. exact uncommitted_row_constant. Qed.
+Print Assumptions C41_uncommitted_row_constant.
+
+Theorem C41_frozen_nonvacuous :
+  good_history (firstn 10 demo_history ++ [nth 10 demo_history CleanupStaging]) /\
+  find_job (run (firstn 10 demo_history)) 1 3 = Some (mkJob 1 3 2 0 Pending true 1000 1 false None 1) /\
+  committed (run (firstn 11 demo_history)) 1 2 = false /\
+  length (jobs (run (firstn 11 demo_history))) = 3%nat /\ length (cjobs (run (firstn 11 demo_history))) = 2%nat.
+Proof. exact frozen_nonvacuous. Qed.
+Print Assumptions C41_frozen_nonvacuous.
+
+(* ------------------------------------------------------------------ non-interference *)
+
+(** FULL STATEMENT (kept visible): for every good history [pre ++ open :: post] in which [open] creates update U of
+    batch B, U is never committed and remains the last update of B:
+        run (erase (pre ++ open :: post)) = proj (run (pre ++ open :: post)).
+    PROVED: the statement below — with [Forall (supported B) post] (see the header for the missing transaction cases), the
+    sequential-client hypothesis, and [proj (run pre) = run pre]; erasure applied to [post] (on [pre] the erased requests
+    find no update / job / attempt to act on; checked for the example in C41_noninterference_nonvacuous). *)
+Theorem C41_noninterference_partial : forall B U tok sj nj sg ng G0 pre usr nj' ng' post,
+  let o0 := CreateUpdate B usr tok nj' ng' in
+  good_history (pre ++ o0 :: post) ->
+  proj B U sj G0 (run pre) = run pre -> Glow B G0 (run pre) -> 0 < G0 ->
+  (forall x, In x (updates (run pre)) -> u_batch x = B -> u_committed x = true) ->
+  (exists up, find_update (run (pre ++ [o0])) B U = Some up /\ u_start_job up = sj) -> find_update (run pre) B U = None ->
+  Forall (supported B) post -> Open B U (run (pre ++ o0 :: post)) ->
+  run (pre ++ erase B U tok sj nj sg ng post) = proj B U sj G0 (run (pre ++ o0 :: post)).
+Proof. exact noninterference_history. Qed.
+Print Assumptions C41_noninterference_partial.
+
+(** State form: from ANY state satisfying the simulation invariant [NInv] (update U open and last, every other update of
+    B committed, ...), for any good continuation of supported transactions after which U is still open and last. *)
+Theorem C41_noninterference_phase2_partial : forall B U tok sj nj sg ng G0 ops s,
+  NInv B U tok sj G0 s -> good_from s ops -> Forall (supported B) ops -> Open B U (Cancel.run_from s ops) ->
+  Cancel.run_from (proj B U sj G0 s) (erase B U tok sj nj sg ng ops) = proj B U sj G0 (Cancel.run_from s ops).
+Proof. intros. apply noninterference_phase2; assumption. Qed.
+Print Assumptions C41_noninterference_phase2_partial.
+
+Theorem C41_noninterference_nonvacuous :
+  good_history (ni_pre ++ ni_open :: ni_post) /\
+  proj 1 2 3 1 (run ni_pre) = run ni_pre /\ Glow 1 1 (run ni_pre) /\
+  (forall x, In x (updates (run ni_pre)) -> u_batch x = 1 -> u_committed x = true) /\
+  (exists up, find_update (run (ni_pre ++ [ni_open])) 1 2 = Some up /\ u_start_job up = 3) /\ find_update (run ni_pre) 1 2 = None /\
+  Forall (supported 1) ni_post /\ Open 1 2 (run (ni_pre ++ ni_open :: ni_post)) /\
+  run (ni_pre ++ erase 1 2 11 3 1 1 1 ni_post) = proj 1 2 3 1 (run (ni_pre ++ ni_open :: ni_post)) /\
+  erase 1 2 11 3 1 1 1 (ni_pre ++ ni_open :: ni_post) = ni_pre ++ erase 1 2 11 3 1 1 1 ni_post /\
+  length (jobs (run (ni_pre ++ ni_open :: ni_post))) = 3%nat /\ length (groups (run (ni_pre ++ ni_open :: ni_post))) = 2%nat /\
+  length (jobs (run (ni_pre ++ erase 1 2 11 3 1 1 1 ni_post))) = 2%nat.
+Proof. exact noninterference_nonvacuous. Qed.
+Print Assumptions C41_noninterference_nonvacuous.
